@@ -145,6 +145,7 @@ type c16Region struct {
 }
 
 type c16Base struct {
+	FlipOnly bool // largest base only: one changed value (^1) per offset instead of three
 	Name     string
 	Raw      []byte
 	Regions  []c16Region
@@ -176,7 +177,7 @@ var c16Shapes = map[string]c16SetSpec{
 // c16Build builds a correctly signed transaction with nsets signature sets of
 // the given shape (disjoint keys), paid by set payerSet, exactly m signatures
 // per set (by the first m keys in canonical order), and the region map.
-func c16Build(shape string, nsets, payerSet int) c16Base {
+func c16Build(shape string, nsets, payerSet int, txType byte) c16Base {
 	spec := c16Shapes[shape]
 	var keysets [][]c1617Key
 	for j := 0; j < nsets; j++ {
@@ -185,9 +186,9 @@ func c16Build(shape string, nsets, payerSet int) c16Base {
 		keysets = append(keysets, sp.keys())
 	}
 	payer := c1617SetAddress(c1617Pubs(keysets[payerSet]), spec.M)
-	unsigned := c1617Unsigned(0xd1, 7, payer, []byte{0x51, 0x52, 0x93, 0x66})
+	unsigned := c1617Unsigned(txType, 7, payer, []byte{0x51, 0x52, 0x93, 0x66})
 	hash := c1617TxHash(unsigned)
-	b := c16Base{Name: fmt.Sprintf("%s x%d payer=set%d", shape, nsets, payerSet), Unsigned: len(unsigned)}
+	b := c16Base{Name: fmt.Sprintf("%s x%d payer=set%d type=%02x", shape, nsets, payerSet, txType), Unsigned: len(unsigned)}
 	b.Regions = append(b.Regions,
 		c16Region{0, 22, "unsigned-header", true, ""},
 		c16Region{22, 42, "payer", true, ""},
@@ -333,15 +334,19 @@ func c16SigByteClass(kind string, pos, n int) string {
 func c16Mutate(r *vh.Run, b *c16Base, item *int) {
 	for off := 0; off < len(b.Raw); off++ {
 		*item++
+		if off%32 == 0 && r.Expired() {
+			return
+		}
 		if !r.Mine(*item) {
 			continue
 		}
-		if off%64 == 0 && r.Expired() {
-			return
-		}
 		rg := b.region(off)
 		orig := b.Raw[off]
-		for _, v := range []byte{orig ^ 1, 0x00, 0xff} {
+		vals := []byte{orig ^ 1, 0x00, 0xff}
+		if b.FlipOnly {
+			vals = vals[:1]
+		}
+		for _, v := range vals {
 			if v == orig {
 				continue
 			}
@@ -640,6 +645,7 @@ func c16NoShape(cls string) string {
 type c16BaseSpec struct {
 	Shape       string
 	Sets, Payer int
+	TxType      byte // 0 = 0xd1 (invoke NeoVM)
 }
 
 func TestVerif_C16(t *testing.T) {
@@ -659,23 +665,25 @@ func TestVerif_C16(t *testing.T) {
 	singles := []string{"p256", "sm2", "ed25519", "eth", "p224", "1of2", "2of3", "2of3mixed", "3of4mixed"}
 	// P-224 keys are costly to parse (point decompression draws random primes), so they appear once on the quick tier
 	for _, sh := range singles {
-		specs = append(specs, c16BaseSpec{sh, 1, 0})
+		specs = append(specs, c16BaseSpec{Shape: sh, Sets: 1, Payer: 0})
 		if sh != "p224" {
-			specs = append(specs, c16BaseSpec{sh, 2, 1})
+			specs = append(specs, c16BaseSpec{Shape: sh, Sets: 2, Payer: 1})
 		}
 	}
-	specs = append(specs, c16BaseSpec{"16of16", 1, 0}, c16BaseSpec{"ed25519", 16, 15}, c16BaseSpec{"p256", 16, 0})
+	specs = append(specs, c16BaseSpec{Shape: "16of16", Sets: 1}, c16BaseSpec{Shape: "ed25519", Sets: 16, Payer: 15}, c16BaseSpec{Shape: "p256", Sets: 16},
+		// an invoke-wasm transaction: its type byte is one bit away from the EIP-155 type
+		c16BaseSpec{Shape: "p256", Sets: 1, TxType: 0xd2})
 	if r.Thorough() {
 		for _, sh := range singles {
-			specs = append(specs, c16BaseSpec{sh, 2, 0})
-			if sh != "p256" && sh != "ed25519" && sh != "p224" {
-				specs = append(specs, c16BaseSpec{sh, 16, 7})
+			specs = append(specs, c16BaseSpec{Shape: sh, Sets: 2})
+			if sh == "sm2" || sh == "eth" || sh == "2of3mixed" || sh == "3of4mixed" {
+				specs = append(specs, c16BaseSpec{Shape: sh, Sets: 16, Payer: 7})
 			}
 		}
-		specs = append(specs, c16BaseSpec{"p224", 2, 1}, c16BaseSpec{"2of2p224", 1, 0})
-		specs = append(specs, c16BaseSpec{"16of16", 2, 1}, c16BaseSpec{"16of16", 16, 15})
+		specs = append(specs, c16BaseSpec{Shape: "p224", Sets: 2, Payer: 1}, c16BaseSpec{Shape: "2of2p224", Sets: 1})
+		specs = append(specs, c16BaseSpec{Shape: "16of16", Sets: 2, Payer: 1}, c16BaseSpec{Shape: "16of16", Sets: 16, Payer: 15})
 	}
-	r.Bound(fmt.Sprintf("%d base transactions, all offsets x 3 byte values; structural alphabet over 2-of-3, mixed 2-of-3, mixed 3-of-4, n=17, 0/16/17 sets", len(specs)))
+	r.Bound(fmt.Sprintf("%d base transactions, all offsets x 3 byte values (16 sets of 16-of-16: ^1 only); structural alphabet over 2-of-3, mixed 2-of-3, mixed 3-of-4, n=17, 0/16/17 sets", len(specs)))
 
 	item := 0
 	nbytes := 0
@@ -683,7 +691,11 @@ func TestVerif_C16(t *testing.T) {
 		if r.Expired() {
 			break
 		}
-		b := c16Build(sp.Shape, sp.Sets, sp.Payer)
+		if sp.TxType == 0 {
+			sp.TxType = 0xd1
+		}
+		b := c16Build(sp.Shape, sp.Sets, sp.Payer, sp.TxType)
+		b.FlipOnly = sp.Shape == "16of16" && sp.Sets == 16
 		nbytes += len(b.Raw)
 		// non-vacuity: the unmutated base must be accepted by both
 		ok, why := c16Oracle(b.Raw)
